@@ -53,6 +53,7 @@ def run(ctx):
         'isotropic': lambda: EC(C11=100., C12=40.),
     }
     recs = []
+    reuse = {}
     names = list(classes)
     nprob = 16 if quick else 200
     P3 = np.array([[0, 0, 1], [1, 0, 0], [0, 1, 0]], dtype=float)        # (m,n,xi)=(x,y,z) -> (y,z,x)
@@ -118,15 +119,28 @@ def run(ctx):
                 g[0] *= -1
             sol2 = solve_volterra_dislocation(C.transform(g), g @ b_cr, transform=R0 @ g.T)
             p = np.array([1.7, -2.3, 0.0])
-            recs.append({'ev': 'covar', 'tag': tag + ':crystalframe', 'a': fx(sol.displacement(p)) + fx(sol.stress(p) / nrm),
-                         'b': fx(sol2.displacement(p)) + fx(sol2.stress(p) / nrm), 'tol': 16})
+            kn = np.abs(np.asarray(sol.K_tensor)).max()
+            recs.append({'ev': 'covar', 'tag': tag + ':crystalframe', 'a': fx(sol.displacement(p)) + fx(sol.stress(p) / nrm) + fx(np.real(sol.K_tensor) / kn),
+                         'b': fx(sol2.displacement(p)) + fx(sol2.stress(p) / nrm) + fx(np.real(sol2.K_tensor) / kn), 'tol': 16})
             # ---- covariance: (m, n) = (y, z): the same physical field in permuted coordinates ------------------------------
             sol3 = solve_volterra_dislocation(C, b_cr, transform=P3 @ R0, m='y', n='z')
             p3 = P3 @ p
             u0 = sol.displacement(p) - sol.displacement(np.array([5.0, 1.0, 0]))
             u3 = sol3.displacement(p3) - sol3.displacement(P3 @ np.array([5.0, 1.0, 0]))
-            recs.append({'ev': 'covar', 'tag': tag + ':mn_yz', 'a': fx(P3 @ u0) + fx(P3 @ sol.stress(p) @ P3.T / nrm),
-                         'b': fx(u3) + fx(sol3.stress(p3) / nrm), 'tol': 16})
+            recs.append({'ev': 'covar', 'tag': tag + ':mn_yz', 'a': fx(P3 @ u0) + fx(P3 @ sol.stress(p) @ P3.T / nrm) + fx(P3 @ np.real(sol.K_tensor) @ P3.T / kn),
+                         'b': fx(u3) + fx(sol3.stress(p3) / nrm) + fx(np.real(sol3.K_tensor) / kn), 'tol': 16})
+            # ---- history on ONE solver object: evaluate, solve a different problem on the same object, evaluate again ------------
+            key = type(sol).__name__
+            if key in reuse:
+                old = reuse[key]
+                old.displacement(np.array([1.0, 1.0, 0.0])); old.stress(np.array([1.0, 1.0, 0.0]))
+                old.solve(C, b_cr, transform=R0)
+                pj = np.array([1.7, -2.3, 0.0])
+                recs.append({'ev': 'covar', 'tag': tag + ':resolved_object', 'a': fx(sol.displacement(pj)) + fx(sol.stress(pj) / nrm) + fx(sol.strain(pj) / np.abs(sol.strain(pj)).max()),
+                             'b': fx(old.displacement(pj)) + fx(old.stress(pj) / nrm) + fx(old.strain(pj) / np.abs(sol.strain(pj)).max()), 'tol': 16})
+                up_, dn_ = old.displacement(np.array([-3.0, 1e-9, 0.25])), old.displacement(np.array([-3.0, -1e-9, 0.25]))
+                recs.append({'ev': 'jump', 'tag': tag + ':resolved_object', 'up': fx(up_), 'dn': fx(dn_), 'up2': fx(up2), 'dn2': fx(dn2), 'b': fx(old.burgers), 'tol': 16})
+            reuse[key] = sol
         except Exception as e:
             import traceback
             tb = traceback.extract_tb(e.__traceback__)[-1]
@@ -173,6 +187,14 @@ def run(ctx):
                 st = solve_volterra_dislocation(Ck, np.array(b0))
                 ds.append(np.abs(st.stress(p) - ref).max() / np.abs(ref).max())
             recs.append({'ev': 'limit', 'tag': 'limit:b%s' % b0, 'd': [int(round(v * S)) for v in ds], 'tol': 8})
+            for mm, nn in (('x', 'y'), ('y', 'z'), ('z', 'x')):
+                Pm = {('x', 'y'): np.eye(3), ('y', 'z'): P3, ('z', 'x'): P3 @ P3}[(mm, nn)]
+                isoK = solve_volterra_dislocation(Ciso, Pm.T @ (Pm @ np.array(b0)), transform=Pm, m=mm, n=nn).K_tensor
+                dk = []
+                for k in range(3, 9):
+                    Ck = EC(C11=lam + 2 * mu, C12=lam, C44=mu * (1 + 2.0 ** -k))
+                    dk.append(np.abs(np.real(solve_volterra_dislocation(Ck, np.array(b0), transform=Pm, m=mm, n=nn).K_tensor) - isoK).max() / np.abs(isoK).max())
+                recs.append({'ev': 'limit', 'tag': 'limitK:m%sn%s:b%s' % (mm, nn, b0), 'd': [int(round(v * S)) for v in dk], 'tol': 8})
     except Exception as e:
         ctx.violation('near-isotropic Stroh solution raised %s' % excname(e), repr(e)[:200])
     for r_ in recs:
